@@ -69,7 +69,7 @@ class C12(Property):
             pulls = [total // 3, 2 * total // 3, total]
         coarse = [x for k, x in enumerate(pulls) if k % 3 == 2 or k == len(pulls) - 1]
         return dict(kind=kind, step=step, per_time=per_time, units=rnd.choice(UNITS), pubs=pubs, pulls=pulls, coarse=coarse,
-                    payload=rnd.choice(["scalar", "scalar", "grid"]), memory=rnd.choice([None, None, None, 0, 50]))
+                    payload=rnd.choice(["scalar", "scalar", "grid"]), memory=rnd.choice([None, None, None, 0, 50]), rejects=rnd.random() < 0.4)
 
     def run(self, spec):
         import os
@@ -128,9 +128,19 @@ class C12(Property):
         acc_fine_real = 0.0
         judged = inside = spanning = 0
         fu, (dims, f_si, _o) = None, TABLE[u]
+        npull = 0
         for t, who in pulls:
             publish_until(t)
             inp = i1 if who == "fine" else i2
+            npull += 1
+            if spec.get("rejects") and npull % 3 == 0:
+                # a request beyond the newest publication must be refused and must leave no trace
+                try:
+                    inp.pull_data(slots.t(hist.newest + 1 + npull))
+                    out.viol("extrapolation", f"{kind}: request beyond the newest publication ({hist.newest}s) was served", spec=spec)
+                    return
+                except fm.FinamTimeError:
+                    out.count("out_of_range_refused")
             try:
                 got = inp.pull_data(slots.t(t))
             except (fm.FinamTimeError, fm.FinamNoDataError) as e:
@@ -218,7 +228,7 @@ class C12(Property):
             out.key = repr((kind, step, per_time, u, spec["payload"], spec["pubs"][1][0], spec["pubs"][2][0], spec["pulls"][:3], [p[1] for p in spec["pubs"][:4]]))
 
     def coverage_gaps(self, counters, tier):
-        need = ["pulls_judged", "per_time_unit_checks", "average_range_checks", "partition_conservation_checks", "kind_avg", "kind_sum", "kind_sum_pt",
+        need = ["pulls_judged", "out_of_range_refused", "per_time_unit_checks", "average_range_checks", "partition_conservation_checks", "kind_avg", "kind_sum", "kind_sum_pt",
                 "mode_linear", "mode_step"]
         return [f"{k} never observed" for k in need if not counters.get(k)]
 
